@@ -120,4 +120,14 @@ def replay(path, seed):
         print("oracle:", fails or "accepts")
         bad = [f for f in fails if f[0] in TAGS]
         return 1 if (bad or row["problem"] or row["diff"]) else 0
+    if isinstance(inp, dict) and "binaries" in inp:
+        sc = {k: v for k, v in inp.items() if k != "tag"}
+        res = vlib.run_impl(binary, "fq", [sc], timeout=600)[0]
+        fails = fq.runner_oracle(inp, res)
+        print("impl:", json.dumps(res)[:3000])
+        print("oracle:", fails or "accepts")
+        bad = [f for f in fails if f[0] in TAGS + ("stable",)]
+        if "liveness" in [f[0] for f in fails] and not fq.runner_f7_shape(inp, res):
+            bad.append(("liveness", "stranded outside the known class"))
+        return 1 if bad else 0
     return 0
